@@ -88,6 +88,28 @@ theorem C19_staking_partition_independent (rate : Dec) (t0 : Int) (e0 : Dec) (bs
   simp only [NS_val, P_val] at *
   omega
 
+/-- Rate changes (a params update, or the switch-over copying the upgrade rate): with a rate that is
+    constant within each block interval but may change from block to block, for ANY block list
+    `(time, pool seen, rate in force)`: the carried error stays in [0,1) and
+    total paid + carried-out error ≤ carried-in error + Σ_b rate_b·(t_b − t_{b−1}).
+    In particular time that passed under a zero rate is never paid for later at a non-zero rate, and a
+    single block (`bs = [b]`) pays at most `rate_b·(t_b − t_{b−1})` plus the carried error (< 1 unit):
+    nothing is paid for time before the previous block. -/
+theorem C19_staking_rate_changes (t0 : Int) (e0 : Dec) (bs : List (Int × Int × Dec))
+    (he : 0 ≤ e0.m ∧ e0.m < P) (hs : okBlocksR t0 bs) :
+    (0 ≤ (runBlocksR t0 e0 bs).2.2.m ∧ (runBlocksR t0 e0 bs).2.2.m < P) ∧
+    NS * (sumL (runBlocksR t0 e0 bs).1 * P + (runBlocksR t0 e0 bs).2.2.m) ≤ rateTime t0 bs + NS * e0.m ∧
+    NS * (sumL (runBlocksR t0 e0 bs).1 * P) < rateTime t0 bs + NS * P := by
+  obtain ⟨a1, a2, a3⟩ := runBlocksR_spec bs t0 e0 he.1 he.2 hs
+  refine ⟨⟨a1, a2⟩, ?_, ?_⟩ <;> (simp only [NS_val, P_val] at *; omega)
+
+/-- non-vacuity: two zero-rate blocks, then a rate of 1 unit/s for one second: exactly 1 unit is paid,
+    not the 3 units the whole stretch would give -/
+example : (runBlocksR 0 Dec.zero [(1000000000, 100, Dec.zero), (2000000000, 100, Dec.zero),
+      (3000000000, 100, ⟨P⟩)]).1 = [0, 0, 1] ∧
+    rateTime 0 [(1000000000, 100, Dec.zero), (2000000000, 100, Dec.zero), (3000000000, 100, ⟨P⟩)]
+      = 1000000000 * P := by decide
+
 /-- The keeper step `PayoutAccumulatedStakingRewards` on an initialised state never panics: it pays
     exactly what `calculateStakingRewards` returns, that amount is within `[0, pool]`, it moves from the
     community pool to the fee collector and nothing is created. -/
